@@ -217,6 +217,11 @@ def parent_main(args):
         vs = witness.get(e['id'])
         if vs is None:
             continue
+        # a witness case also runs the other oracles of its check: what those report is judged like any violation of the run,
+        # only the entry's own oracles decide whether the finding is (still / again) there
+        other = [v for v in vs if v['oracle'] not in e.get('oracle', []) and v['oracle'] != 'witness-replay-crashed']
+        vs = [v for v in vs if not any(v is o for o in other)]
+        violations.extend(other)
         if e.get('status') == 'open':
             if vs:
                 kf_lines.append('KNOWN-FINDING: property=%s %s %s' % (prop, e['id'], e.get('what', '')))
